@@ -1,4 +1,4 @@
-"""C19 acquisition geometries: correspondence + probes (no translator: the code is formulas, not tables)."""
+"""C19 acquisition geometries: formula translator + correspondence + probes."""
 import math
 from fractions import Fraction as Fr
 
@@ -6,7 +6,14 @@ import numpy as np
 
 from . import common as C
 
+from translate import geometry_formulas as GF
+
 PID = 'C19'
+
+
+def translate():
+    return {'Gen/GeometryFormulas.v': GF.translate(C.REPO)}
+
 SHARD_SIZE = 40
 IMPORTS = ['C19.Model', 'C19.Corr']
 
@@ -89,8 +96,8 @@ def impl(fun):
         return 'IOtherErr'
 
 
-def add_case(cs, model, impl_term, desc, key, typeerr=False):
-    cs.add('{| k_model := %s; k_impl := %s; k_typeerr := %s |}' % (model, impl_term, C.b(typeerr)), desc, key)
+def add_case(cs, model, impl_term, desc, key):
+    cs.add('{| k_model := %s; k_impl := %s |}' % (model, impl_term), desc, key)
 
 
 # ---------------------------------------------------- detector parameters
@@ -208,27 +215,6 @@ def rnd_shift(rng, n):
 
 
 # ------------------------------------------------------------- variant switch
-def par2d_slice_fixed():
-    """Measured on the finding's own input: does Parallel2dGeometry.__getitem__ add the translation twice?"""
-    import odl
-    ap, dp = _parts(odl, 1)
-    g = odl.tomo.Parallel2dGeometry(ap, dp, det_pos_init=[3.0, 4.0], translation=[1.0, 2.0])
-    h = g[1:3]
-    return bool(np.allclose(h.det_pos_init, [4.0, 6.0]))
-
-
-def cone_slice_curved_raises():
-    """Measured variant: does ConeBeamGeometry.__getitem__ raise TypeError for a curved detector?"""
-    import odl
-    ap, dp = _parts(odl, 2)
-    g = odl.tomo.ConeBeamGeometry(ap, dp, 5.0, 5.0, det_curvature_radius=(2.5, None))
-    try:
-        g[1:3]
-        return False
-    except TypeError:
-        return True
-
-
 def curved_alignment_fixed():
     """Measured variant: do the curved detectors align a0, a1 exactly (surface_deriv(0,0) = r * axes) on the
     recorded antiparallel input?"""
@@ -238,22 +224,6 @@ def curved_alignment_fixed():
     d = CylindricalDetector(dp, axes=[(0, 1, 0), (0, 0, 1)], radius=2.0)
     return bool(np.allclose(d.surface_deriv((0.0, 0.0)), [[0, 2, 0], [0, 0, 1]], atol=1e-10))
 
-
-def _float_perp(odl, axis, axes, m=None):
-    """Would the detector axes the constructor computes be EXACTLY perpendicular in floating point?
-    (Cylindrical/SphericalDetector test dot != 0; when rounding decides, the input is outside the
-    exact-arithmetic model and is left to the probe 'cone-curved-axes-exact-perpendicularity'.)"""
-    from odl.tomo.util.utility import transform_system
-    try:
-        if m is not None:
-            vecs = transform_system((0, 0, 1), None, [(1, 0, 0), (0, 0, 1)], matrix=np.array(m, dtype=float))
-        elif axes is not None:
-            return float(np.dot(fl(axes[0]), fl(axes[1]))) == 0.0
-        else:
-            vecs = transform_system(fl(axis), (0, 0, 1), [(1, 0, 0), (0, 0, 1)])
-        return float(np.dot(vecs[1], vecs[2])) == 0.0
-    except Exception:
-        return True
 
 
 # ------------------------------------------------------------ correspondence
@@ -377,7 +347,7 @@ def _pts3(rng, n, kind):
     return pts, terms
 
 
-def par2d_cases(rng, tier, fixed):
+def par2d_cases(rng, tier):
     import odl
     cs = C.CaseSet('par2d', IMPORTS, 'check', 'case')
     ap, dp = _parts(odl, 1)
@@ -423,8 +393,8 @@ def par2d_cases(rng, tier, fixed):
                 model = 'obs_par2d (%s) %s' % (mk, ptt)
                 it = impl(lambda: obs_par2d(build(), pts))
             else:
-                model = ('obs_par2d (bindg (%s) (fun g => q_par2d_getitem %s g %s)) %s'
-                         % (mk, C.b(fixed), opt(axis, qv), ptt))
+                model = ('obs_par2d (bindg (%s) (fun g => q_par2d_getitem g %s)) %s'
+                         % (mk, opt(axis, qv), ptt))
                 it = impl(lambda: obs_par2d(build()[i:j], pts))
                 desc['slice'] = [i, j]
         add_case(cs, model, it, desc, key)
@@ -575,7 +545,7 @@ def fan_cases(rng, tier):
     return cs
 
 
-def cone_cases(rng, tier, slice_raises, curved_fixed):
+def cone_cases(rng, tier, curved_fixed):
     import odl
     cs = C.CaseSet('cone', IMPORTS, 'check', 'case')
     ap, dp = _parts(odl, 2)
@@ -592,11 +562,6 @@ def cone_cases(rng, tier, slice_raises, curved_fixed):
             s2d = [0, 0, 0]               # ValueError
         kind = rng.choice(['flat', 'flat', 'cyl', 'sph'])
         axes = _axes3(rng) if kind == 'flat' else (_perp_axes3(rng) if rng.random() < 0.7 else None)
-        if kind != 'flat' and axes is None and tuple(axis) in GEN3:
-            # default axes of a curved detector: the exact perpendicularity test needs exact roots
-            axis = list(rng.choice(PYTH3))
-            if s2d is not None and np.linalg.norm(np.cross(s2d, axis)) == 0:
-                s2d = None
         tr = rng.choice([[0, 0, 0], [1, -2, 0.5], [0.25, 0, -3]])
         rs, rd = rng.choice([(2, 1), (5, 5), (3, 0), (0, 4), (1.5, 2.25), (-1, 2), (7, 3), (2, -1), (0, 0), (4, 2)])
         if kind == 'flat' and rng.random() < 0.05:
@@ -625,11 +590,8 @@ def cone_cases(rng, tier, slice_raises, curved_fixed):
                 'src_shift': None if ssf is None else [ssf.c0.tolist(), ssf.c1.tolist()],
                 'det_shift': None if dsf is None else [dsf.c0.tolist(), dsf.c1.tolist()]}
         key = ('cone', C.digest(desc))
-        typeerr = (mode == 'slice' and kind != 'flat' and slice_raises)
         if mode == 'matrix':
             m = _rot3(rng)
-            if kind != 'flat' and not _float_perp(odl, None, None, [fl(r) for r in m]):
-                m = [[0, -1, 0], [1, 0, 0], [0, 0, 1]]
             with_tr = rng.random() < 0.6
             mat = [fl(row) + ([float(t)] if with_tr else []) for row, t in zip(m, tr)]
             trm = tr if with_tr else [0, 0, 0]
@@ -640,11 +602,6 @@ def cone_cases(rng, tier, slice_raises, curved_fixed):
             desc['init_matrix'] = str(mat)
             key = ('cone', C.digest(desc))
         else:
-            if kind != 'flat' and not _float_perp(odl, axis, axes):
-                axes = _perp_axes3(rng)
-                desc['det_axes_init'] = str(axes)
-                key = ('cone', C.digest(desc))
-
             def build():
                 k2 = dict(kw)
                 if s2d is not None:
@@ -661,20 +618,51 @@ def cone_cases(rng, tier, slice_raises, curved_fixed):
             else:
                 model = 'obs_cone (bindg (%s) (q_cone_getitem %s)) %s %s' % (mk, C.b(curved_fixed), C.q(twopi), ptt)
                 it = impl(lambda: obs_cone(build()[i:j], pts))
-                if typeerr:
-                    try:
-                        build()
-                    except ValueError:
-                        typeerr = False     # rejected by the constructor before any slicing happens
-        add_case(cs, model, it, desc, key, typeerr)
+        add_case(cs, model, it, desc, key)
+    return cs
+
+
+def factory_cases(rng, tier):
+    """parallel_beam_geometry / cone_beam_geometry / helical_geometry on dyadic volumes: detector extent (rho, w/2),
+    helical offset and pitch."""
+    import odl
+    cs = C.CaseSet('factories', IMPORTS, 'check', 'case')
+    n = 10 if tier == 'quick' else 40
+    for _ in range(n):
+        lo = [rng.choice([-2.0, -1.0, -0.5, -1.5, -3.0]) for _ in range(3)]
+        hi = [rng.choice([0.5, 1.0, 2.0, 1.5, 0.25]) for _ in range(3)]
+        if rng.random() < 0.3:           # Pythagorean corner: rho rational
+            lo[0], hi[0], lo[1], hi[1] = -3.0, 1.0, -4.0, 2.0
+        rho = max(math.hypot(x, y) for x in (lo[0], hi[0]) for y in (lo[1], hi[1]))
+        rs = float(math.ceil(rho) + rng.choice([1, 2, 5]))
+        rd = rng.choice([0.5, 1.0, 3.0, 4.0])
+        turns = rng.choice([1, 2, 4, 0.5])
+        shape = [rng.randint(3, 6) for _ in range(3)]
+
+        def run():
+            sp3 = odl.uniform_discr(lo, hi, shape)
+            sp2 = odl.uniform_discr(lo[:2], hi[:2], shape[:2])
+            gp = odl.tomo.parallel_beam_geometry(sp2)
+            gp3 = odl.tomo.parallel_beam_geometry(sp3)
+            gc = odl.tomo.cone_beam_geometry(sp2, rs, rd)
+            gc3 = odl.tomo.cone_beam_geometry(sp3, rs, rd)
+            gh = odl.tomo.helical_geometry(sp3, rs, rd, num_turns=turns)
+            r1, r2 = float(gp.det_params.max_pt[0]), float(gp3.det_params.max_pt[0])
+            w1, w2, w3 = float(gc.det_params.max_pt[0]), float(gc3.det_params.max_pt[0]), float(gh.det_params.max_pt[0])
+            assert r1 == r2 == -float(gp.det_params.min_pt[0]) and w1 == w2 == w3 == -float(gc.det_params.min_pt[0])
+            assert list(gp3.det_params.min_pt[1:]) == [lo[2]] and list(gp3.det_params.max_pt[1:]) == [hi[2]]
+            return [r1, w1, gh.offset_along_axis, gh.pitch]
+        model = 'obs_factory %s' % ' '.join(C.q(x) for x in (lo[0], hi[0], lo[1], hi[1], lo[2], hi[2], rs, rd, turns))
+        add_case(cs, model, impl(run), {'fn': 'factories', 'min_pt': lo, 'max_pt': hi, 'src_radius': rs,
+                                        'det_radius': rd, 'num_turns': turns},
+                 ('factory', tuple(lo), tuple(hi), rs, rd, turns))
     return cs
 
 
 def correspondence(rng, tier):
-    fixed = par2d_slice_fixed()
     _ARANGE[0] = (-4.0, 4.0)
-    out = [utility_cases(rng, tier), par2d_cases(rng, tier, fixed), par3_cases(rng, tier), fan_cases(rng, tier),
-           cone_cases(rng, tier, cone_slice_curved_raises(), curved_alignment_fixed())]
+    out = [utility_cases(rng, tier), par2d_cases(rng, tier), par3_cases(rng, tier), fan_cases(rng, tier),
+           cone_cases(rng, tier, curved_alignment_fixed()), factory_cases(rng, tier)]
     _ARANGE[0] = (-4.0, 4.0)
     return out
 
@@ -1281,7 +1269,8 @@ def probes(rng, tier):
     return out
 
 
-RULE = ('5 case sets (utility functions, Parallel2d, Parallel3dAxis/Euler, FanBeam, ConeBeam). Per geometry class: random '
+RULE = ('6 case sets (utility functions, Parallel2d, Parallel3dAxis/Euler, FanBeam, ConeBeam, factories: rho, half width, '
+        'helical offset and pitch on dyadic volumes). Per geometry class: random '
         'constructor arguments -- Pythagorean (rational length, so every branch test is decided exactly) and generic '
         'integer axes / initial positions / detector axes, zero vectors and bad radii (ValueError), inputs inside and just '
         'outside the allclose window of transform_system, dyadic translations, flat / circular / cylindrical / spherical '
@@ -1296,13 +1285,18 @@ ASSUMPTIONS = ['exact arithmetic: rounding is out of scope; np.cos/np.sin/np.arc
                'that the pair is the cosine/sine of that value is outside the model',
                'the correspondence executes the model at a rational carrier that is exact up to denominators 10^36 and '
                'rounds to 30 digits beyond (generic axes give nested irrational roots); comparison tolerance 1e-9',
-               'inputs on which floating-point rounding decides a branch (exact == 0 tests on rotated axes, the poles of '
-               'the spherical detector, arccos next to 1) are excluded from the correspondence and left to probes',
+               'inputs on which floating-point rounding decides a branch (the poles of the spherical detector, arccos next '
+               'to 1) are excluded from the correspondence and left to probes',
                'NumPy broadcasting/shape mechanics of the vectorised entry points are validated by probes, not modelled',
-               'cone_beam_geometry/helical_geometry: only the detector extent formulas are modelled (not the Nyquist '
-               'sample counts, ceil, arctan)']
-TRUSTED = ['C19/Model.v: hand transcription of utility.py / detector.py / geometry.py / parallel.py / conebeam.py, tied to '
-           'the code by the correspondence only (no translator: the code is formulas, not tables)',
+               'factories: detector extents, helical offset and pitch are modelled and compared; the Nyquist sample counts '
+               '(ceil) and the pixel round-up of the cone-beam detector height are not',
+               'no Q2R transfer theorem: the shards execute the model at a ROUNDING rational carrier (exact below '
+               'denominators 1e36), which is not a ring homomorphism; the executed model is tied to the proved one only by '
+               'being the same polymorphic term']
+TRUSTED = ['translate/geometry_formulas.py (Python ast -> Gallina, fail closed): matrix literals of euler_matrix, entries of '
+           'axis_rotation_matrix, native surface/surface_deriv vectors of the curved detectors',
+           'C19/Model.v: hand transcription of the rest of utility.py / detector.py / geometry.py / parallel.py / '
+           'conebeam.py (constructors, transform_system, from_to, reference points), tied to the code by the correspondence',
            'C19/Corr.v: rounding rational carrier NQ and Qsqrt used to execute the model',
            'harness/c19.py: flattening order of the observations on both sides']
 LEVEL_TEXT = ('Partial proof. Proved in Coq for ALL parameters (every axis, initial position, translation, radius, shift, '
